@@ -223,11 +223,8 @@ func (r *result) trickle(every time.Duration) {
 func (r *result) forge(victim string, variant int) (data []byte, code uint64, name string, skip string) {
 	w := r.w
 	r.tap.mu.Lock()
-	last, maxPN, ku := r.tap.last1rtt[dirTo(victim)], r.tap.maxPN[dirTo(victim)], r.tap.keyUpdate[dirTo(victim)]
+	last, maxPN := r.tap.last1rtt[dirTo(victim)], r.tap.maxPN[dirTo(victim)]
 	r.tap.mu.Unlock()
-	if ku {
-		return nil, 0, "", "key update seen"
-	}
 	if last == nil {
 		return nil, 0, "", "no 1-RTT packet towards the victim observed"
 	}
@@ -251,9 +248,14 @@ func (r *result) forge(victim string, variant int) (data []byte, code uint64, na
 		suites = []uint16{refcrypto.TLS_AES_256_GCM_SHA384}
 	}
 	pnOff := 1 + len(last.DCID)
+	// the implementation updates its keys for the first time after only 100 packets: follow the generation the
+	// peer currently sends with
 	var keys *refcrypto.Keys
 	for _, s := range suites {
 		k := refcrypto.DeriveKeys(s, refcrypto.V1, secret)
+		for g := 0; g < last.KeyGen; g++ {
+			k = k.NextGeneration()
+		}
 		if _, pn, _, _, err := refcrypto.Unprotect(k, last.Raw, pnOff, int64(last.PN)-1); err == nil && pn == last.PN {
 			keys = k
 			break
@@ -273,7 +275,10 @@ func (r *result) forge(victim string, variant int) (data []byte, code uint64, na
 	}
 	payload, code, name := forgeFrames(victim, variant)
 	pn := maxPN + 3
-	hdr := refwire.AppendShortHeader(nil, last.DCID, pn&0xffffffff, 4, false, false)
+	hdr := refwire.AppendShortHeader(nil, last.DCID, pn&0xffffffff, 4, last.KeyPhase, false)
+	if last.KeyGen > 0 {
+		r.forgeAfterKeyUpdate = true
+	}
 	return refcrypto.Protect(keys, hdr, pnOff, 4, pn, payload), code, name, ""
 }
 
